@@ -9,7 +9,8 @@ from .. import core, shardlib
 
 RULE = ("random sharded datasets (grids <=4^3 quick / 6^3 thorough incl. non-powers of two and single-chunk "
         "axes, cubic chunk sizes, bit triples m,s in 0..3(5), p in 0..3, raw/gzip index and data encodings, "
-        "subsets 25-100%, random store order, payload lengths 0..40) written through the real "
+        "subsets 25-100%, random store order, payload lengths 0..40, handed over as bytes / bytearray / memoryview / the typed buffer "
+        "of a uint16 array and scribbled over afterwards) written through the real "
         "ShardedFileAccessor; every stored chunk is then fetched from the files on disk by a reader "
         "implemented from the specification only (Python, strict) and, for raw encodings, by the Lean "
         "Shard.specFetch on the same bytes; thorough adds every grid <=3^3 x every triple <=(2,2,2). "
